@@ -98,7 +98,9 @@ func (w *World) locateOut(cs *connState, pos int) (int, int) {
 // drainOracles run at the quiescent point after the workload, with the engine
 // still running, fair scheduling and peers reading everything.
 func (w *World) drainOracles() {
-	healthy := !w.stopRequested && !w.stopEverAsked && !w.runDone
+	// (a client loop that was told to shut down by a callback has exited: requests
+	// addressed to it are lost by design of that action)
+	healthy := !w.stopRequested && !w.stopEverAsked && !w.runDone && w.probes["client-shutdown-action"] == 0
 	for _, cs := range w.conns {
 		if cs == nil || !cs.opened || cs.udp {
 			continue
